@@ -158,7 +158,58 @@ class Verdict:
     __slots__ = ("status", "detail", "expected", "observed")
 
 
+def static_domain(prog):
+    """Python scoping of the generated code is not documented semantics: a name assigned ANYWHERE in a def (even in a branch
+    that never runs) is local to it.  Programs that assign variables / define functions inside a lambda or function body
+    are therefore outside the reference's domain - decided statically, not on the executed path."""
+    def walk(seq, in_def, top):
+        for nd in seq:
+            t = nd[0]
+            if t == "fndef":
+                if not top:
+                    return "function definition that is not a top-level statement"
+                r = walk(nd[3], True, False)
+                if r:
+                    return r
+            elif t == "set" and in_def:
+                return "variable assignment inside a lambda/function body"
+            elif t == "for":
+                if nd[1] is not None and in_def:
+                    return "named loop variable inside a lambda/function body"
+                r = walk(nd[2], in_def, False)
+                if r:
+                    return r
+            elif t in ("if", "list"):
+                for b in nd[1]:
+                    r = walk(b, in_def or t == "list", False)
+                    if r:
+                        return r
+            elif t == "while":
+                for b in ([nd[1]] if nd[1] is not None else []) + [nd[2]]:
+                    r = walk(b, in_def, False)
+                    if r:
+                        return r
+            elif t == "lam":
+                r = walk(nd[2], True, False)
+                if r:
+                    return r
+            elif t in ("map", "filter", "sort"):
+                r = walk(nd[1], True, False)
+                if r:
+                    return r
+            elif t == "mod":
+                r = walk(nd[2], True, False)
+                if r:
+                    return r
+        return None
+
+    return walk(prog, False, True)
+
+
 def run_ref(prog, inputs, flags="", preset=None, finish=False, fuel=1500):
+    bad = static_domain(prog)
+    if bad:
+        return ("ood", bad, None, None)
     vm = refvm.RefVM(inputs, flags, fuel=fuel)
     try:
         with sandbox.watchdog(10.0):
@@ -290,13 +341,28 @@ def chain_elements():
     ]
 
 
-LEAVES = [(E("n"),), (E("n"), E(",")), (E(":"), ("if", ((("break",),),))), (E("?"), E("+"))]
+LEAVES = [(E("n"),), (E("n"), E(",")), (E(":"), ("if", ((("break",),),))), (E("?"), E("+")), (N(1), ("break",), N(2))]
+
+
+def probed_chain_elements():
+    """the same nesting, but every level reads and prints its context value AFTER the inner construct has finished
+    (a context value leaked by the inner construct's normal or early exit shows up here)"""
+    P = (E("n"), E(","))
+    return [
+        ("if", lambda inner: (N(1), ("if", (inner + P,)))),
+        ("for", lambda inner: (N(2), ("for", None, inner + P))),
+        ("while", lambda inner: (N(2), E("£"), ("while", (E("¥"),), (E("¥"), E("‹"), E("£")) + inner + P))),
+        ("while-falsy-exit", lambda inner: (("while", (N(0),), inner),) + P),
+        ("lambda", lambda inner: (N(7), ("lam", None, inner + P), E("†"))),
+        ("function", lambda inner: (N(7), ("fndef", "f", (1,), inner + P), ("fncall", "f"))),
+        ("list", lambda inner: (("list", (inner + P,)),)),
+    ]
 
 
 def _e2_shard(args):
-    firsts, depth, input_names = args
+    firsts, depth, input_names = args[:3]
     part = explore.Partial()
-    ce = chain_elements()
+    ce = probed_chain_elements() if len(args) > 3 and args[3] else chain_elements()
     for f in firsts:
         for d in range(0, depth - len(f) + 1):
             for rest in itertools.product(range(len(ce)), repeat=d):
@@ -325,6 +391,9 @@ def statement_menu():
         L(("mod", "‡", (E("d"), E("›"))), E("†")), L(N(3), ("for", None, (E("n"), ("if", ((("break",),),))))),
         L(N(3), ("for", None, (E("n"), N(2), E("<"), ("if", ((("recurse",),),)), E("n"), E(",")))), L(("lam", None, (N(1), ("break",), N(2))), E("†")),
         L(N(3), ("lam", None, (E(":"), ("if", ((E("‹"), ("recurse",)),)))), E("†")), L(N(3), E("ɾ")), L(E("W"),), L(N(2), ("sort", (E("N"),))),
+        L(("fndef", "g", (), (N(1), ("break",), N(2))), ("fncall", "g")), L(("fndef", "g", (1,), (E(":"), ("if", ((("break",),),)), N(5))), ("fncall", "g")),
+        L(N(2), ("map", (("break",), E("!")))), L(N(3), ("filter", (N(2), E("<"), ("break",), N(0)))), L(("while", (N(0),), (N(1),)), E("n")),
+        L(N(2), ("for", None, (("while", (N(0),), (N(1),)), E("n"), E(",")))),
     ]
     return m
 
@@ -491,6 +560,10 @@ def run(tier, seed):
     firsts = [[(a,)] for a in range(len(ce))] if cd < 2 else [[(a, b)] for a in range(len(ce)) for b in range(len(ce))]
     explore.pmap(_e2_shard, [([(a,)], 1, ["2,5"]) for a in range(len(ce))], rep, seed)
     explore.pmap(_e2_shard, [(f, cd, ["2,5"] if quick else ["none", "2,5"]) for f in firsts], rep, seed)
+    pce = probed_chain_elements()
+    pd = 3 if quick else 4
+    explore.pmap(_e2_shard, [([(a,)], 1, ["2,5"], True) for a in range(len(pce))], rep, seed)
+    explore.pmap(_e2_shard, [([(a, b)], pd, ["2,5"], True) for a in range(len(pce)) for b in range(len(pce))], rep, seed)
     # S
     menu = statement_menu()
     depth = 2 if quick else 3
@@ -498,6 +571,16 @@ def run(tier, seed):
     # F
     gf = Gen(ATOMS_MID, mods=False, rich=False)
     pf = gf.programs(2) if quick else Gen(ATOMS_MID, mods=True, rich=False).programs(3)
+    # every construct that turns a number into a range (the M / m flags change what it iterates over)
+    body_sets = [(E("n"),), (N(2), E("<")), (E("d"),), (E("n"), E(","))]
+    rng = []
+    for k in (3, 0, 1):
+        for b in body_sets:
+            rng += [(N(k), ("for", None, b)), (N(k), ("for", "i", (("get", "i"),) + b)), (N(k), ("map", b)), (N(k), ("filter", b)),
+                    (N(k), ("lam", None, b), E("M")), (N(k), ("lam", None, b), E("F")), (("lam", None, b), N(k), E("M")),
+                    (("lam", None, b), N(k), E("F")), (N(k), ("mod", "~", (("lam", None, b),)))]
+        rng += [(N(k), ("mod", "v", (E("d"),))), (N(k), ("mod", "v", (E("›"),))), (N(k), ("mod", "~", (E("d"),))), (N(k), E("ɾ")), (N(k), N(2), ("mod", "v", (E("+"),)))]
+    pf = list(pf) + rng
     explore.pmap(_flag_shard, [(c, ["none", "2,5"]) for c in explore.chunks(pf, 128)], rep, seed)
     b = rep.sections.get("bfs", {})
     rep.extra.update({
